@@ -1,0 +1,19 @@
+//go:build verif
+
+package stake
+
+// Read-only accessors for the external verification harness (build tag `verif` only).
+
+// VerifLastValidators returns copies of (address, total power) of the current validator set.
+func (ctrler *StakeCtrler) VerifLastValidators() ([][]byte, []int64) {
+	ctrler.mtx.RLock()
+	defer ctrler.mtx.RUnlock()
+
+	var addrs [][]byte
+	var powers []int64
+	for _, v := range ctrler.lastValidators {
+		addrs = append(addrs, append([]byte(nil), v.Addr...))
+		powers = append(powers, v.TotalPower)
+	}
+	return addrs, powers
+}
